@@ -148,12 +148,109 @@ theorem bulk_continue_all (ok : Nat → Bool) (es : List Elem) (i : Nat) : proce
   | nil => simp [processed]
   | cons e es ih => simp [processed, ih]; omega
 
+/-! #### an element answered `ERROR` was not executed, unless the error is the backend's own answer -/
+
+/-- an element that fails BEFORE the backend call (unknown action, or a body the decoder refuses) is never handed to the
+backend, wherever it stands and whatever the flag -/
+theorem failed_before_backend_never_executed (ok : Nat → Bool) (cont : Bool) (es : List Elem) (k : Nat) (e : Elem)
+    (hk : es[k]? = some e) (hc : called e = false) : k ∉ (processBulk ok cont es).calls := by
+  intro hmem
+  obtain ⟨_, e', he', hce'⟩ := (bulk_order ok cont es).2 k hmem
+  rw [hk] at he'
+  cases he'
+  rw [hc] at hce'
+  cases hce'
+
+/-- **origin of an error**: when result `k` is `ERROR`, either element `k` failed before the backend call and was never
+executed, or it was handed to the backend and the backend itself answered with an error -/
+theorem bulk_error_origin (ok : Nat → Bool) (cont : Bool) (es : List Elem) (k : Nat)
+    (h : k < (processBulk ok cont es).results.length) (herr : (processBulk ok cont es).results[k] = .err) :
+    ∃ e, es[k]? = some e ∧
+      ((called e = false ∧ k ∉ (processBulk ok cont es).calls) ∨ (called e = true ∧ ok k = false)) := by
+  obtain ⟨e, he, hr⟩ := (bulk_positional ok cont es).2 k h
+  refine ⟨e, he, ?_⟩
+  rw [hr] at herr
+  by_cases hc : called e = true
+  · right
+    refine ⟨hc, ?_⟩
+    obtain ⟨a, p⟩ := e
+    cases hok : ok k
+    · rfl
+    · exfalso
+      cases a <;> cases p <;> simp_all [called, answer, fails]
+  · left
+    have hc' : called e = false := by simpa using hc
+    exact ⟨hc', failed_before_backend_never_executed ok cont es k e he hc'⟩
+
+/-- a body the decoder refuses makes an element that is answered `ERROR` and never executed: `decodes` feeds `parses` -/
+theorem undecodable_body_never_executed (ok : Nat → Bool) (cont : Bool) (es : List Elem) (k : Nat) (a : Action) (b : Body)
+    (hk : es[k]? = some ⟨a, decodes a b⟩) (hb : decodes a b = false) : k ∉ (processBulk ok cont es).calls :=
+  failed_before_backend_never_executed ok cont es k _ hk (by simp [called, hb])
+
+/-- the error code of a backend failure is never empty, so `errorCode` is set exactly on the `ERROR` results -/
+theorem backendCode_ne_empty (a : Action) (e : BErr) : backendCode a e ≠ "" := by
+  cases a <;> simp only [backendCode] <;> repeat' split
+  all_goals decide
+
+theorem go_codes (back : Nat → Ans) (cont : Bool) (es : List Elem) (i : Nat) :
+    (goCodes back cont i es).length = (go (fun k => (back k).isOk) cont i es).results.length ∧
+    ∀ k, (h : k < (goCodes back cont i es).length) → (h' : k < (go (fun k => (back k).isOk) cont i es).results.length) →
+      ((goCodes back cont i es)[k] = "" ↔ (go (fun k => (back k).isOk) cont i es).results[k] ≠ .err) := by
+  induction es generalizing i with
+  | nil => simp [go, goCodes]
+  | cons e es ih =>
+    obtain ⟨ihl, ihk⟩ := ih (i + 1)
+    have head : codeOf back i e = "" ↔ answer (fun k => (back k).isOk) i e ≠ .err := by
+      obtain ⟨a, p⟩ := e
+      cases hb : back i with
+      | ok => cases a <;> cases p <;> simp [codeOf, answer, fails, called, hb, Ans.isOk]
+      | err b =>
+        have hne := backendCode_ne_empty a b
+        cases a <;> cases p <;> simp_all [codeOf, answer, fails, called, Ans.isOk]
+    by_cases hs : (fails (fun k => (back k).isOk) i e && !cont) = true
+    · refine ⟨by simp [go, goCodes, hs], ?_⟩
+      intro k hk hk'
+      have : k = 0 := by simpa [goCodes, hs] using hk
+      subst this
+      simpa [go, goCodes] using head
+    · have hs' : (fails (fun k => (back k).isOk) i e && !cont) = false := by simpa using hs
+      refine ⟨by simp [go, goCodes, hs', ihl], ?_⟩
+      intro k hk hk'
+      cases k with
+      | zero => simpa [go, goCodes] using head
+      | succ k =>
+        have h1 : k < (goCodes back cont (i + 1) es).length := by simpa [goCodes, hs'] using hk
+        have h2 : k < (go (fun k => (back k).isOk) cont (i + 1) es).results.length := by simpa [go, hs'] using hk'
+        simpa [go, goCodes, hs'] using ihk k h1 h2
+
+/-- **codes**: one error code per result, empty exactly on the results that are not `ERROR` -/
+theorem bulk_codes (back : Nat → Ans) (cont : Bool) (es : List Elem) :
+    (goCodes back cont 0 es).length = (processBulk (fun k => (back k).isOk) cont es).results.length ∧
+    ∀ k, (h : k < (goCodes back cont 0 es).length) → (h' : k < (processBulk (fun k => (back k).isOk) cont es).results.length) →
+      ((goCodes back cont 0 es)[k] = "" ↔ (processBulk (fun k => (back k).isOk) cont es).results[k] ≠ .err) := by
+  simpa [processBulk] using go_codes back cont es 0
+
+/-- a transaction whose script does not compile, or that has neither postings nor script, is handed to the backend (its
+body decodes) and refused there, whatever the scripted answer: it is answered `ERROR`, the bulk signals failure -/
+theorem uncompilable_script_fails_in_backend (scripted : Ans) (b : Body) (hb : b = .scriptBroken ∨ b = .neither) :
+    decodes .create b = true ∧ (engineAns .create b scripted).isOk = false := by
+  rcases hb with rfl | rfl <;> simp [decodes, engineAns, Ans.isOk]
+
 /-! non-vacuity: a concrete bulk where an unknown action sits in the middle -/
 example : processBulk (fun i => i != 3) true
     [⟨.create, true⟩, ⟨.unknown, true⟩, ⟨.addMeta, false⟩, ⟨.revert, true⟩, ⟨.delMeta, true⟩]
     = ⟨[.ok .create, .err, .err, .err, .ok .delMeta], [0, 3, 4], true⟩ := by decide
 example : processBulk (fun _ => true) false [⟨.create, true⟩, ⟨.unknown, true⟩, ⟨.revert, true⟩]
     = ⟨[.ok .create, .err], [0], true⟩ := by decide
+
+/-- element bodies: a script that does not compile (position 1) is executed and refused by the backend, a transaction
+metadata target with a string id (position 2) fails before the backend; with continue-on-failure the rest goes on -/
+example :
+    let es : List (Action × Body) := [(.create, .script), (.create, .scriptBroken), (.addMeta, .txIdNotNumber), (.create, .both), (.revert, .noId)]
+    let elems := es.map (fun (a, b) => (⟨a, decodes a b⟩ : Elem))
+    let back : Nat → Ans := fun i => engineAns (es[i]?.map (·.1) |>.getD .unknown) (es[i]?.map (·.2) |>.getD .other) .ok
+    processBulk (fun k => (back k).isOk) true elems = ⟨[.ok .create, .err, .err, .ok .create, .ok .revert], [0, 1, 3, 4], true⟩ ∧
+    goCodes back true 0 elems = ["", "VALIDATION", "VALIDATION", "", ""] := by decide
 
 /-! #### the continue-on-failure flag as spelled on the wire
 
